@@ -353,6 +353,9 @@ def gen_cases(rng, tier):
             # None = an unstranded feature (Biopython strand None, e.g. SeqFeature(FeatureLocation(a, b))
             # or an imported annotation without direction): the API equivalent is Location(a, b)
             feats.append((a, a + ln, rng.choice([1, 1, -1, None]), idxs))
+            if rng.random() < 0.25 and feats[-1][2] in (1, -1):
+                # the same annotation on the opposite strand of the same segment
+                feats.append((a, a + ln, -feats[-1][2], idxs))
         cases.append(("record", seq, tuple(feats)))
     return cases, {}
 
